@@ -221,7 +221,10 @@ pub enum Dev {
     Wild { alt: usize, simple: usize, side: usize, comp: usize, ch: &'static str },
     NoTagHyphen { alt: usize, simple: usize, side: usize },
     Garbage { alt: usize, pos: usize, tok: &'static str },
-    Sep { alt: usize, pos: usize },
+    Sep { alt: usize, pos: usize, s: &'static str },
+    TabLead,
+    TabTrail,
+    VSpace { alt: usize, simple: usize, side: usize },
     Or { idx: usize, s: &'static str },
     HyphenSep { alt: usize },
     Lead,
@@ -238,6 +241,9 @@ impl Dev {
             Dev::NoTagHyphen { .. } => "tag-without-hyphen",
             Dev::Garbage { .. } => "garbage-token",
             Dev::Sep { .. } => "extra-blank-between",
+            Dev::TabLead => "leading-blank",
+            Dev::TabTrail => "trailing-blank",
+            Dev::VSpace { .. } => "v-prefix",
             Dev::Or { .. } => "or-spacing",
             Dev::HyphenSep { .. } => "hyphen-spacing",
             Dev::Lead => "leading-blank",
@@ -254,7 +260,10 @@ impl Dev {
             Dev::OpGap { alt, simple, .. } => format!("g{}.{}", alt, simple),
             Dev::NoTagHyphen { alt, simple, side } => format!("t{}.{}.{}", alt, simple, side),
             Dev::Garbage { alt, pos, .. } => format!("G{}.{}", alt, pos),
-            Dev::Sep { alt, pos } => format!("s{}.{}", alt, pos),
+            Dev::Sep { alt, pos, .. } => format!("s{}.{}", alt, pos),
+            Dev::TabLead => "L".into(),
+            Dev::TabTrail => "T".into(),
+            Dev::VSpace { alt, simple, side } => format!("v{}.{}.{}", alt, simple, side),
             Dev::Or { idx, .. } => format!("o{}", idx),
             Dev::HyphenSep { alt } => format!("h{}", alt),
             Dev::Lead => "L".into(),
@@ -272,6 +281,9 @@ fn render_partial(p: &Partial, alt: usize, simple: usize, side: usize, devs: &[D
     let mut s = String::new();
     if devs.iter().any(|d| matches!(d, Dev::VPrefix { alt: a, simple: si, side: sd } if *a == alt && *si == simple && *sd == side)) {
         s.push('v');
+    }
+    if devs.iter().any(|d| matches!(d, Dev::VSpace { alt: a, simple: si, side: sd } if *a == alt && *si == simple && *sd == side)) {
+        s.push_str("v ");
     }
     for (i, c) in p.c.iter().enumerate() {
         if i > 0 {
@@ -315,6 +327,9 @@ pub fn render(prog: &Prog, devs: &[Dev]) -> String {
     let mut s = String::new();
     if devs.contains(&Dev::Lead) {
         s.push(' ');
+    }
+    if devs.contains(&Dev::TabLead) {
+        s.push('\t');
     }
     for (ai, alt) in prog.iter().enumerate() {
         if ai > 0 {
@@ -372,8 +387,15 @@ pub fn render(prog: &Prog, devs: &[Dev]) -> String {
                 let _ = &mut seps;
                 for (k, t) in toks.iter().enumerate() {
                     if k > 0 {
-                        let wide = devs.iter().any(|d| matches!(d, Dev::Sep { alt, pos } if *alt == ai && *pos == k));
-                        s.push_str(if wide { "  " } else { " " });
+                        let mut sep = " ";
+                        for d in devs {
+                            if let Dev::Sep { alt, pos, s: t } = d {
+                                if *alt == ai && *pos == k {
+                                    sep = t;
+                                }
+                            }
+                        }
+                        s.push_str(sep);
                     }
                     s.push_str(t);
                 }
@@ -383,14 +405,19 @@ pub fn render(prog: &Prog, devs: &[Dev]) -> String {
     if devs.contains(&Dev::Trail) {
         s.push(' ');
     }
+    if devs.contains(&Dev::TabTrail) {
+        s.push('\t');
+    }
     s
 }
 
 /// every single deviation applicable to `prog`
 pub fn sites(prog: &Prog) -> Vec<Dev> {
-    let mut out = vec![Dev::Lead, Dev::Trail];
+    let mut out = vec![Dev::Lead, Dev::Trail, Dev::TabLead, Dev::TabTrail];
     let partial_sites = |p: &Partial, alt: usize, simple: usize, side: usize, out: &mut Vec<Dev>| {
         out.push(Dev::VPrefix { alt, simple, side });
+        // `v ` (v, blank) is accepted by the crate but not by node-semver inside a comparator
+        // (node splits at the blank): outside "npm's documented desugaring", not generated
         for (i, c) in p.c.iter().enumerate() {
             match c {
                 Cmp::N(_) => out.push(Dev::LeadZero { alt, simple, side, comp: i }),
@@ -406,7 +433,7 @@ pub fn sites(prog: &Prog) -> Vec<Dev> {
     };
     for (ai, alt) in prog.iter().enumerate() {
         if ai > 0 {
-            for s in ["||", " ||", "|| ", "  ||  "] {
+            for s in ["||", " ||", "|| ", "  ||  ", "\t||\t"] {
                 out.push(Dev::Or { idx: ai, s });
             }
         }
@@ -439,7 +466,9 @@ pub fn sites(prog: &Prog) -> Vec<Dev> {
                     }
                 }
                 for k in 1..ntok {
-                    out.push(Dev::Sep { alt: ai, pos: k });
+                    out.push(Dev::Sep { alt: ai, pos: k, s: "  " });
+                    out.push(Dev::Sep { alt: ai, pos: k, s: "\t" });
+                    out.push(Dev::Sep { alt: ai, pos: k, s: " \t " });
                 }
             }
         }
